@@ -760,6 +760,22 @@ nnls_normal_block_updown(cholmod_sparse *AtA, cholmod_dense *Atb, int verbose,
  */
 
 
+#ifdef PHOTOSPLINE_VERIF
+/*
+ * Verification hook (conformance checking against a model of the algorithm):
+ * reports the state of nnls_normal_block3 at the end of each phase. The
+ * function is provided by the test harness; nothing is called without it.
+ */
+void photospline_verif_block3(const char *phase, int iter, int nvar,
+    const long *F, long nF, const long *H1, long nH1, const long *H2, long nH2,
+    const double *x, const double *y, int solved_on_F) __attribute__((weak));
+#define VERIF_BLOCK3(phase) do { if (photospline_verif_block3) \
+	photospline_verif_block3(phase, iter, nvar, F, nF, H1, nH1, H2, nH2, \
+	    (const double*)(x->x), (const double*)(y->x), solved_on_F); } while (0)
+#else
+#define VERIF_BLOCK3(phase) ((void)0)
+#endif
+
 cholmod_dense *
 nnls_normal_block3(cholmod_sparse *AtA, cholmod_dense *Atb, int verbose,
    cholmod_common *c)
@@ -927,6 +943,7 @@ nnls_normal_block3(cholmod_sparse *AtA, cholmod_dense *Atb, int verbose,
                  * descent direction it does not (yet), and the multipliers
                  * computed from it say nothing about optimality.
                  */
+                VERIF_BLOCK3("release");
                 if (nH2 == 0 && solved_on_F) break;
 
                 ninf = nH1 + nH2;
@@ -1033,6 +1050,7 @@ nnls_normal_block3(cholmod_sparse *AtA, cholmod_dense *Atb, int verbose,
                                 cholmod_l_free_dense(&x_F, c);
                                 feasible = true;
                                 solved_on_F = true;
+                                VERIF_BLOCK3("accept");
 
                                 if (verbose)
                                         printf("\tSolution entirely "
@@ -1058,6 +1076,7 @@ nnls_normal_block3(cholmod_sparse *AtA, cholmod_dense *Atb, int verbose,
                                 cholmod_l_free_dense(&x_F, c);
                                 feasible = false;
                                 solved_on_F = false;
+                                VERIF_BLOCK3("boundary");
 
                                 if (verbose)
                                         printf("\tConstraining %ld coefficients"
@@ -1101,6 +1120,7 @@ nnls_normal_block3(cholmod_sparse *AtA, cholmod_dense *Atb, int verbose,
                                     F, &nF, H1, &nH1, &residual,
                                     &residual_calcs, verbose, c);
                                 solved_on_F = false;
+                                VERIF_BLOCK3(feasible ? "walk" : "walk-last");
 
                         } /* if (nF_inf == 0) */
 
@@ -1206,6 +1226,7 @@ nnls_normal_block3(cholmod_sparse *AtA, cholmod_dense *Atb, int verbose,
                         ((double *)(x->x))[G_[i]] = 0;
                 for (i = 0; i < nF_; i++)
                         ((double *)(y->x))[F_[i]] = 0;
+                VERIF_BLOCK3("update");
 
 #if 0
                 double* x_full = (double*)(x->x);
